@@ -226,6 +226,32 @@ CHECKS["C17"] = dict(
          "residual classes separate truncated constants from wrong terms.",
     design="4/C17")
 
+CHECKS["C11"] = dict(
+    technique="Hypothesis-generated synthetic Einstein Toolkit directories "
+              "(sizes, ghost widths, rectilinear / nested decompositions, "
+              "component permutations, 4 layouts, levels, overlapping "
+              "restarts) whose stored values encode (variable, iteration, "
+              "level, restart, x, y, z) injectively; exact-equality oracle, "
+              "4-layout differential, raise-or-exact for unsupported layouts",
+    text="read_data / read_ET_variables / join_chunks / fixij must return "
+         "exactly the stored interior data for every generated directory and "
+         "request; mismatches are decoded into wrong restart / iteration / "
+         "level / position. Chunk-count and cut-axis classes are all "
+         "populated.",
+    design="4/C11")
+CHECKS["C12"] = dict(
+    technique="Hypothesis-generated read histories (st.lists of read_data "
+              "calls: variable subsets mixing tensor and component names, "
+              "iteration subsets, levels, restarts, split_per_it on/off) on "
+              "one generated simulation; ground-truth oracle for every "
+              "returned array and for every dataset of every cache file, "
+              "differential vs an uncached read",
+    text="After every call each returned (variable, iteration) equals ground "
+         "truth and the uncached read, and every dataset in every "
+         "all_iterations/it_*.hdf5 holds the data of the variable, iteration "
+         "and level it is filed under.",
+    design="4/C12")
+
 NOT_YET = "check not built yet in this session (see DESIGN.md section 4)"
 
 
